@@ -1820,3 +1820,38 @@ def to_num(v, env):
     if isinstance(v, TanV):
         return v.num.num(env) / v.den.num(env)
     raise TypeError(type(v))
+
+
+class SympyShadowLib(Lib):
+    """C08: evaluates with the *replacements* documented for the symbolic backend (vector._lib.SympyLib) and records, for every
+    occurrence, the obligation that the numeric operation coincides with the replacement (clamp inactive, sign argument
+    non-negative).  With all of them discharged on the regular domain, numeric and symbolic evaluation agree by congruence."""
+
+    def _note(self, what, f):
+        CTX.__dict__.setdefault("c08", []).append((what, f))
+
+    def maximum(self, a, b):
+        a, b = A.of(a), A.of(b)
+        keep, other = (b, a) if a.const() is not None and b.const() is None else (a, b)     # SympyLib returns the symbolic argument
+        s = (keep - other).sign()
+        if s not in ("+", "0+", "0"):
+            self._note("maximum(a, b) is its symbolic argument (clamp inactive)", keep.rel(">=", other))
+        return keep
+
+    def minimum(self, a, b):
+        a, b = A.of(a), A.of(b)
+        keep, other = (b, a) if a.const() is not None and b.const() is None else (a, b)
+        s = (other - keep).sign()
+        if s not in ("+", "0+", "0"):
+            self._note("minimum(a, b) is its symbolic argument (clamp inactive)", keep.rel("<=", other))
+        return keep
+
+    def copysign(self, a, b):
+        a, b = A.of(a), A.of(b)
+        real = Lib.copysign(self, a, b)
+        if real.key() != a.key():
+            self._note("copysign(a, b) is a (sign convention not needed)", real.rel("==", a))
+        return a
+
+
+SHADOWLIB = SympyShadowLib()
